@@ -1,5 +1,202 @@
-import GraphrsModel.ObsCen
-namespace Graphrs
-/-- placeholder while the framework is brought up: replaced by the property theorems -/
-theorem C18_bcScale_small (d : Bool) : bcScale 2 true d = none := rfl
-end Graphrs
+/-
+  C18 — eigenvector centrality returns a unit-norm approximate dominant eigenvector.
+
+  The iteration of src/algorithms/centrality/eigenvector.rs is  x ↦ normalise(x + Aᵀx) = normalise(M x)  with
+  M = I + Aᵀ, A the non-negative (weighted or 0/1) adjacency matrix.  It stops with Ok(x_k) only when
+  ‖x_k − x_{k−1}‖₁ < n·tol.  Over the reals (IEEE rounding is not modelled) this file proves what C18 states about
+  such a vector: non-negative, Euclidean norm 1, and one further step moves it by at most 2·‖M‖_F·n·tol - the
+  tolerance-derived bound that the Lean checker `checkEigen` (Spec/Centrality.lean) evaluates on the
+  implementation's output on every run.
+-/
+import Mathlib.Analysis.Real.Sqrt
+import Mathlib.Algebra.Order.Chebyshev
+import Mathlib.Analysis.InnerProductSpace.Basic
+import Mathlib.Analysis.InnerProductSpace.PiL2
+import Mathlib.Algebra.Order.BigOperators.Ring.Finset
+import Mathlib.Tactic
+namespace Graphrs.Eigen
+
+open Finset BigOperators
+
+variable {n : ℕ}
+
+/-- Euclidean norm of a vector given by its components -/
+noncomputable def norm2 (x : Fin n → ℝ) : ℝ := Real.sqrt (∑ i, x i ^ 2)
+/-- L1 norm -/
+def norm1 (x : Fin n → ℝ) : ℝ := ∑ i, |x i|
+/-- Frobenius norm of a matrix -/
+noncomputable def frob (M : Fin n → Fin n → ℝ) : ℝ := Real.sqrt (∑ i, ∑ j, M i j ^ 2)
+def mulVec (M : Fin n → Fin n → ℝ) (x : Fin n → ℝ) : Fin n → ℝ := fun i => ∑ j, M i j * x j
+/-- one step of the power iteration: x ↦ M x / ‖M x‖ (as in the code, a zero norm is replaced by 1) -/
+noncomputable def step (M : Fin n → Fin n → ℝ) (x : Fin n → ℝ) : Fin n → ℝ :=
+  fun i => mulVec M x i / (if norm2 (mulVec M x) = 0 then 1 else norm2 (mulVec M x))
+
+/-- M = I + Aᵀ for a non-negative A: entries ≥ 0, diagonal ≥ 1 -/
+def IsIterationMatrix (M : Fin n → Fin n → ℝ) : Prop := (∀ i j, 0 ≤ M i j) ∧ ∀ i, 1 ≤ M i i
+
+/-! ### helper lemmas about `norm2` -/
+
+theorem norm2_nonneg (x : Fin n → ℝ) : 0 ≤ norm2 x := Real.sqrt_nonneg _
+
+theorem frob_nonneg (M : Fin n → Fin n → ℝ) : 0 ≤ frob M := Real.sqrt_nonneg _
+
+/-- `norm2` is the norm of `EuclideanSpace ℝ (Fin n)` -/
+theorem norm2_eq_norm (x : Fin n → ℝ) : norm2 x = ‖(WithLp.toLp 2 x : EuclideanSpace ℝ (Fin n))‖ := by
+  rw [EuclideanSpace.norm_eq]
+  simp [norm2, sq_abs]
+
+theorem norm2_add_le (u v : Fin n → ℝ) : norm2 (fun i => u i + v i) ≤ norm2 u + norm2 v := by
+  have h : (fun i => u i + v i) = u + v := rfl
+  rw [h, norm2_eq_norm, norm2_eq_norm, norm2_eq_norm, WithLp.toLp_add]
+  exact norm_add_le _ _
+
+theorem abs_norm2_sub_le (u v : Fin n → ℝ) : |norm2 u - norm2 v| ≤ norm2 (fun i => u i - v i) := by
+  have h : (fun i => u i - v i) = u - v := rfl
+  rw [h, norm2_eq_norm, norm2_eq_norm, norm2_eq_norm, WithLp.toLp_sub]
+  exact abs_norm_sub_norm_le _ _
+
+theorem norm2_smul (c : ℝ) (v : Fin n → ℝ) : norm2 (fun i => c * v i) = |c| * norm2 v := by
+  unfold norm2
+  have h : ∑ i, (c * v i) ^ 2 = c ^ 2 * ∑ i, v i ^ 2 := by
+    rw [Finset.mul_sum]; exact Finset.sum_congr rfl (fun i _ => by ring)
+  rw [h, Real.sqrt_mul (sq_nonneg c), Real.sqrt_sq_eq_abs]
+
+theorem le_mulVec (M : Fin n → Fin n → ℝ) (hM : IsIterationMatrix M) (x : Fin n → ℝ) (hx : ∀ i, 0 ≤ x i) (i : Fin n) :
+    x i ≤ mulVec M x i := by
+  unfold mulVec
+  have h1 : x i ≤ M i i * x i := by nlinarith [hM.2 i, hx i]
+  have h2 : M i i * x i ≤ ∑ j, M i j * x j :=
+    Finset.single_le_sum (f := fun j => M i j * x j) (fun j _ => mul_nonneg (hM.1 i j) (hx j)) (Finset.mem_univ i)
+  linarith
+
+theorem mulVec_nonneg (M : Fin n → Fin n → ℝ) (hM : IsIterationMatrix M) (x : Fin n → ℝ) (hx : ∀ i, 0 ≤ x i) (i : Fin n) :
+    0 ≤ mulVec M x i :=
+  Finset.sum_nonneg (fun j _ => mul_nonneg (hM.1 i j) (hx j))
+
+/-- entries stay non-negative -/
+theorem C18_step_nonneg (M : Fin n → Fin n → ℝ) (hM : IsIterationMatrix M) (x : Fin n → ℝ) (hx : ∀ i, 0 ≤ x i) :
+    ∀ i, 0 ≤ step M x i := by
+  intro i
+  unfold step
+  apply div_nonneg (mulVec_nonneg M hM x hx i)
+  split
+  · exact zero_le_one
+  · exact norm2_nonneg _
+
+/-- for a non-negative vector, M x dominates x componentwise, hence in norm -/
+theorem C18_norm_nondecreasing (M : Fin n → Fin n → ℝ) (hM : IsIterationMatrix M) (x : Fin n → ℝ) (hx : ∀ i, 0 ≤ x i) :
+    norm2 x ≤ norm2 (mulVec M x) := by
+  unfold norm2
+  apply Real.sqrt_le_sqrt
+  apply Finset.sum_le_sum
+  intro i _
+  exact pow_le_pow_left₀ (hx i) (le_mulVec M hM x hx i) 2
+
+theorem step_eq (M : Fin n → Fin n → ℝ) (hM : IsIterationMatrix M) (x : Fin n → ℝ) (hx : ∀ i, 0 ≤ x i)
+    (hx0 : 0 < norm2 x) : step M x = fun i => (1 / norm2 (mulVec M x)) * mulVec M x i := by
+  have hb : 0 < norm2 (mulVec M x) := lt_of_lt_of_le hx0 (C18_norm_nondecreasing M hM x hx)
+  funext i
+  unfold step
+  rw [if_neg hb.ne']
+  ring
+
+/-- **unit norm**: the result of a step from a non-negative non-zero vector has Euclidean norm 1 -/
+theorem C18_step_unit_norm (M : Fin n → Fin n → ℝ) (hM : IsIterationMatrix M) (x : Fin n → ℝ) (hx : ∀ i, 0 ≤ x i)
+    (hx0 : 0 < norm2 x) : norm2 (step M x) = 1 := by
+  have hb : 0 < norm2 (mulVec M x) := lt_of_lt_of_le hx0 (C18_norm_nondecreasing M hM x hx)
+  rw [step_eq M hM x hx hx0, norm2_smul, abs_of_pos (by positivity)]
+  field_simp
+
+/-- ‖M v‖ ≤ ‖M‖_F ‖v‖ (Cauchy-Schwarz) -/
+theorem C18_frob_bound (M : Fin n → Fin n → ℝ) (v : Fin n → ℝ) : norm2 (mulVec M v) ≤ frob M * norm2 v := by
+  unfold norm2 frob mulVec
+  rw [← Real.sqrt_mul (Finset.sum_nonneg (fun i _ => Finset.sum_nonneg (fun j _ => sq_nonneg _)))]
+  apply Real.sqrt_le_sqrt
+  rw [Finset.sum_mul]
+  apply Finset.sum_le_sum
+  intro i _
+  exact Finset.sum_mul_sq_le_sq_mul_sq Finset.univ (fun j => M i j) v
+
+/-- the L2 norm is at most the L1 norm -/
+theorem C18_norm2_le_norm1 (v : Fin n → ℝ) : norm2 v ≤ norm1 v := by
+  unfold norm2 norm1
+  rw [Real.sqrt_le_iff]
+  refine ⟨Finset.sum_nonneg (fun i _ => abs_nonneg _), ?_⟩
+  rw [sq, Finset.sum_mul]
+  apply Finset.sum_le_sum
+  intro i _
+  rw [← sq_abs, sq]
+  apply mul_le_mul_of_nonneg_left _ (abs_nonneg _)
+  exact Finset.single_le_sum (f := fun j => |v j|) (fun j _ => abs_nonneg _) (Finset.mem_univ i)
+
+theorem mulVec_sub (M : Fin n → Fin n → ℝ) (y x : Fin n → ℝ) :
+    (fun i => mulVec M y i - mulVec M x i) = mulVec M (fun j => y j - x j) := by
+  funext i
+  unfold mulVec
+  rw [← Finset.sum_sub_distrib]
+  exact Finset.sum_congr rfl (fun j _ => by ring)
+
+/-- ‖a/‖a‖ − b/‖b‖‖ ≤ 2‖a − b‖/‖a‖ -/
+theorem normalise_sub_le (a b : Fin n → ℝ) (ha : 0 < norm2 a) (hb : 0 < norm2 b) :
+    norm2 (fun i => (1 / norm2 a) * a i - (1 / norm2 b) * b i)
+      ≤ 2 * norm2 (fun i => a i - b i) / norm2 a := by
+  have hsplit : (fun i => (1 / norm2 a) * a i - (1 / norm2 b) * b i)
+      = fun i => (1 / norm2 a) * (a i - b i) + (1 / norm2 a - 1 / norm2 b) * b i := by
+    funext i; ring
+  rw [hsplit]
+  refine le_trans (norm2_add_le _ _) ?_
+  rw [norm2_smul, norm2_smul, abs_of_pos (by positivity : 0 < 1 / norm2 a)]
+  have h1 : |1 / norm2 a - 1 / norm2 b| * norm2 b = |norm2 b - norm2 a| / norm2 a := by
+    have : 1 / norm2 a - 1 / norm2 b = (norm2 b - norm2 a) / (norm2 a * norm2 b) := by
+      field_simp
+    rw [this, abs_div, abs_of_pos (mul_pos ha hb)]
+    field_simp
+  rw [h1]
+  have h2 : |norm2 b - norm2 a| ≤ norm2 (fun i => a i - b i) := by
+    rw [abs_sub_comm]; exact abs_norm2_sub_le a b
+  have h3 : |norm2 b - norm2 a| / norm2 a ≤ norm2 (fun i => a i - b i) / norm2 a :=
+    div_le_div_of_nonneg_right h2 ha.le
+  have h4 : 1 / norm2 a * norm2 (fun i => a i - b i) = norm2 (fun i => a i - b i) / norm2 a := by ring
+  rw [h4]
+  have h5 : 2 * norm2 (fun i => a i - b i) / norm2 a
+      = norm2 (fun i => a i - b i) / norm2 a + norm2 (fun i => a i - b i) / norm2 a := by ring
+  rw [h5]
+  linarith
+
+/-- **the tolerance-derived bound**: if y = step M x was accepted because ‖y − x‖₁ < n·tol (x, y non-negative, x non-zero),
+    then one further step moves y by less than 2·‖M‖_F·n·tol in the Euclidean norm -/
+theorem C18_next_step_bound (M : Fin n → Fin n → ℝ) (hM : IsIterationMatrix M) (x : Fin n → ℝ) (hx : ∀ i, 0 ≤ x i)
+    (hx0 : 0 < norm2 x) (tol : ℝ) (hconv : norm1 (fun i => step M x i - x i) < n * tol) :
+    norm2 (fun i => step M (step M x) i - step M x i) ≤ 2 * frob M * (n * tol) := by
+  have hy : ∀ i, 0 ≤ step M x i := C18_step_nonneg M hM x hx
+  have hy1 : norm2 (step M x) = 1 := C18_step_unit_norm M hM x hx hx0
+  have hy0 : 0 < norm2 (step M x) := by rw [hy1]; exact one_pos
+  have hb : 0 < norm2 (mulVec M x) := lt_of_lt_of_le hx0 (C18_norm_nondecreasing M hM x hx)
+  have ha1 : 1 ≤ norm2 (mulVec M (step M x)) := by
+    have := C18_norm_nondecreasing M hM (step M x) hy
+    rwa [hy1] at this
+  have ha : 0 < norm2 (mulVec M (step M x)) := lt_of_lt_of_le one_pos ha1
+  -- T(y) − y = a/‖a‖ − b/‖b‖
+  have hTy : step M (step M x) = fun i => (1 / norm2 (mulVec M (step M x))) * mulVec M (step M x) i :=
+    step_eq M hM (step M x) hy hy0
+  have hyb : ∀ i, step M x i = (1 / norm2 (mulVec M x)) * mulVec M x i := fun i =>
+    congrFun (step_eq M hM x hx hx0) i
+  have hrew : (fun i => step M (step M x) i - step M x i)
+      = fun i => (1 / norm2 (mulVec M (step M x))) * mulVec M (step M x) i
+          - (1 / norm2 (mulVec M x)) * mulVec M x i := by
+    funext i
+    rw [← hyb i, hTy]
+  rw [hrew]
+  refine le_trans (normalise_sub_le _ _ ha hb) ?_
+  have hd : norm2 (fun i => mulVec M (step M x) i - mulVec M x i) ≤ frob M * (n * tol) := by
+    rw [mulVec_sub]
+    refine le_trans (C18_frob_bound M _) ?_
+    apply mul_le_mul_of_nonneg_left _ (frob_nonneg M)
+    exact le_trans (C18_norm2_le_norm1 _) hconv.le
+  have hdn : 0 ≤ norm2 (fun i => mulVec M (step M x) i - mulVec M x i) := norm2_nonneg _
+  calc 2 * norm2 (fun i => mulVec M (step M x) i - mulVec M x i) / norm2 (mulVec M (step M x))
+      ≤ 2 * norm2 (fun i => mulVec M (step M x) i - mulVec M x i) / 1 :=
+        div_le_div_of_nonneg_left (by positivity) one_pos ha1
+    _ ≤ 2 * frob M * (n * tol) := by rw [div_one]; linarith
+
+end Graphrs.Eigen
